@@ -41,7 +41,10 @@ RULE = (
     "coordinates), BlockMean(variance|uncertainty weights), nested Chain (depth <= 2), Vector of those, VectorSpline2D}; scalar and "
     "2-3 component data, every component with its own random field, noise and log-uniform weights (3 decades); weights none / given; "
     "data dtype classes float64 / float32 / int16 / int32 / int64 (integer-valued data that no smooth model predicts exactly) / mixed "
-    "(one integer, one float64 component), integer (int32/int64 lattice) coordinates; "
+    "(one integer, one float64 component), integer (int32/int64 lattice) coordinates; step names unique / drawn from a pool of three / "
+    "all equal / the class name (so repeated, also across nesting levels); life-cycle histories: the same chain object fitted on A then "
+    "on B with another bounding box and size (block reductions without an explicit region), clones taken after a fit, set_params on held "
+    "steps and replaced step lists between fits; "
     "1-D and 2-D inputs, optional third coordinate; fit, predict at the data and elsewhere, direct filter calls, and histories "
     "(the same chain/vector object fitted again on other data). Every Chain.fit / Chain.predict / Vector.fit / Vector.predict / "
     "filter execution, nested ones included, is decided from its recorded call tree. Non-trivial = a Chain.fit with >= 2 steps of "
@@ -51,7 +54,10 @@ ASSUMPTIONS = [
     "data-flow identities (residual = data - prediction, sums of predictions, conservation) are compared with 64 eps sum|terms|",
     "the reference residual is float64(data) - float64(prediction) at float64 eps for every data dtype; only when an operand the code "
     "received is itself a narrow float (KNeighbors predicts float32 for float32 data) float32 eps applies, counted as either_way",
-    "a raise (Chain.predict with an integer first prediction followed by a float one) is counted and noted, not judged (normal returns only)",
+    "a raise is counted and noted, not judged (normal returns only)",
+    "the reference of the refit relation is an unfitted clone taken before the object's first fit (renewed only after a set_params between "
+    "fits), never a clone of the fitted object; constructor parameters (get_params, nested) are compared before/after every root fit/filter",
+    "block counts are judged only when no point lies within 1e-9 of a cell edge and the cell count is not a rounding tie (either-way otherwise)",
     "a clone fitted by the harness on the same inputs repeats the same floating-point computation: compared with 1e-9 of the data scale",
     "estimators are deterministic (single-threaded BLAS, numpy engine); step objects are not shared between steps/components",
     "VectorSpline2D keeps the force coordinates of its first fit (documented), so it is left out of the refit-equals-fresh relation",
@@ -67,7 +73,12 @@ FLOORS = {
               "filter_data_dtype:mixed": 55, "filter_coordinates:integer": 140, "chain_coordinates:integer": 80,
               "chain_predicting_step_followed:data_dtype:int16": 35, "chain_predicting_step_followed:data_dtype:int32": 35,
               "chain_predicting_step_followed:data_dtype:int64": 35, "chain_predicting_step_followed:data_dtype:float32": 60,
-              "chain_predicting_step_followed:data_dtype:mixed": 30},
+              "chain_predicting_step_followed:data_dtype:mixed": 25,
+              # step-name classes and life-cycle histories
+              "chain_names:all_equal": 85, "chain_names:some_repeated": 55, "chain_names:repeated_among_predicting_steps": 110,
+              "chain_names:shared_with_nested_chain": 65, "history:refit_with_regionless_reduction": 22, "history:clone_after_fit": 24,
+              "history:parameters_changed_between_fits": 10, "eval:params_unchanged": 480, "eval:reduction_blocks_on_own_region": 170,
+              "reduction_region:own_bounding_box": 140, "eval:clone_after_fit_equals_new": 24},
     "thorough": {"eval:filter": 18500, "eval:chain_fit_order": 9000, "eval:chain_threading": 9000, "eval:conservation_events": 9000,
                  "eval:conservation_predict": 8800, "eval:chain_predict_sum": 23000, "eval:vector_routing": 3900,
                  "eval:vector_vs_separate": 15500, "eval:vector_predict": 11500, "eval:refit_equals_fresh": 1650,
@@ -76,7 +87,11 @@ FLOORS = {
                  "filter_data_dtype:mixed": 700, "filter_coordinates:integer": 2100, "chain_coordinates:integer": 1200,
                  "chain_predicting_step_followed:data_dtype:int16": 520, "chain_predicting_step_followed:data_dtype:int32": 520,
                  "chain_predicting_step_followed:data_dtype:int64": 520, "chain_predicting_step_followed:data_dtype:float32": 900,
-                 "chain_predicting_step_followed:data_dtype:mixed": 380},
+                 "chain_predicting_step_followed:data_dtype:mixed": 380,
+                 "chain_names:all_equal": 1800, "chain_names:some_repeated": 1300, "chain_names:repeated_among_predicting_steps": 2500,
+                 "chain_names:shared_with_nested_chain": 1400, "history:refit_with_regionless_reduction": 440, "history:clone_after_fit": 380,
+                 "history:parameters_changed_between_fits": 230, "eval:params_unchanged": 8500, "eval:reduction_blocks_on_own_region": 3300,
+                 "reduction_region:own_bounding_box": 2700, "eval:clone_after_fit_equals_new": 380},
 }
 JOBS = {"quick": 1, "thorough": 8}
 CASE_TIMEOUT_S = 300
@@ -88,7 +103,7 @@ TINY = float(np.finfo("float64").tiny)
 
 def plan(tier):
     if tier == "quick":
-        return collections.OrderedDict(scalar_chain=36, vector=16, vector_chain=14, refit=10, filter=8)
+        return collections.OrderedDict(scalar_chain=28, vector=13, vector_chain=11, refit=10, filter=7)
     return collections.OrderedDict(ambient=4, scalar_chain=560, vector=240, vector_chain=220, refit=160, filter=100)
 
 
@@ -182,6 +197,38 @@ def _shapes(x):
     return list(np.shape(x))
 
 
+def _freeze(obj, depth=0):
+    """Comparable image of an estimator's constructor parameters (get_params), nested estimators, arrays and callables included."""
+    if depth > 8:
+        return ("deep",)
+    if hasattr(obj, "get_params") and not isinstance(obj, type):
+        params = obj.get_params(deep=False)
+        if type(obj).__name__ == "VectorSpline2D":
+            params = {k: v for k, v in params.items() if k != "force_coords"}  # documented: set by the first fit
+        return (type(obj).__name__, tuple((k, _freeze(params[k], depth + 1)) for k in sorted(params)))
+    if isinstance(obj, (list, tuple)):
+        return (type(obj).__name__,) + tuple(_freeze(v, depth + 1) for v in obj)
+    if isinstance(obj, dict):
+        return ("dict",) + tuple((str(k), _freeze(obj[k], depth + 1)) for k in sorted(obj, key=str))
+    if isinstance(obj, np.ndarray):
+        return ("ndarray", obj.dtype.str, obj.shape, obj.tobytes())
+    if callable(obj):
+        return ("callable", getattr(obj, "__module__", ""), getattr(obj, "__qualname__", repr(obj)))
+    return ("value", repr(obj))
+
+
+def _frozen_diff(a, b, path=""):
+    """Where two frozen parameter images differ (path of the first difference)."""
+    if a == b:
+        return None
+    if isinstance(a, tuple) and isinstance(b, tuple) and len(a) == len(b):
+        for k, (x, y) in enumerate(zip(a, b)):
+            if x != y:
+                name = x[0] if (isinstance(x, tuple) and len(x) == 2 and isinstance(x[0], str)) else str(k)
+                return _frozen_diff(x, y, path + "/" + name)
+    return path or "/"
+
+
 class _State:
     """Per-case memory of the monitors (kept outside the monitored objects)."""
 
@@ -191,6 +238,7 @@ class _State:
     def reset(self):
         self.chain_fitted = {}  # id(chain) -> chain (strong reference for the duration of the case)
         self.vector_fits = {}  # id(vector) -> (vector, fitted clones)
+        self.blueprints = {}  # id(chain) -> [chain, unfitted clone taken before its first fit (or after a set_params), parameters after the last fit]
 
 
 STATE = _State()
@@ -272,7 +320,37 @@ def install(tap, run):
         return tuple(pre.get(k, ev.args.get(k)) for k in ("coordinates", "data", "weights"))
 
     def pre_snapshot(ev):
-        return {k: _snap(ev.args.get(k)) for k in ("coordinates", "data", "weights") if k in ev.args}
+        pre = {k: _snap(ev.args.get(k)) for k in ("coordinates", "data", "weights") if k in ev.args}
+        obj = ev.obj
+        if ev.parent is not None:
+            return pre  # nested calls: the parameters of every nested step are part of the image taken at the enclosing root call
+        if ev.name.endswith(".filter") or isinstance(obj, (Chain, Vector)):
+            pre["params"] = _freeze(obj)
+        if isinstance(obj, Chain) and ev.name.endswith(".fit"):
+            # the reference for histories: an unfitted clone taken BEFORE this object's first fit; renewed only when the user
+            # changed parameters between fits (set_params on the chain or on a step it holds)
+            rec = STATE.blueprints.get(id(obj))
+            if rec is None or rec[0] is not obj:
+                STATE.blueprints[id(obj)] = [obj, clone(obj), None]
+            elif rec[2] is not None and rec[2] != pre["params"]:
+                rec[1] = clone(obj)
+                run.count("history:parameters_changed_between_fits")
+        return pre
+
+    def check_params(ev, label):
+        """Constructor parameters (get_params, nested steps/components included) must be what they were before fit / filter."""
+        before = (ev.pre or {}).get("params")
+        if before is None:
+            return True
+        after = _freeze(ev.obj)
+        run.evaluated("params_unchanged")
+        if after != before:
+            where = _frozen_diff(before, after)
+            run.violation("params_unchanged", "%s changed the constructor parameters of %s (at %s)" % (label, describe(ev.obj), where),
+                          {"estimator": describe(ev.obj), "where": where, "parameters_now": repr(ev.obj.get_params(deep=False))[:1500]},
+                          key="params:" + label)
+            return False
+        return True
 
     def report(monitor, problems, witness):
         for key, message in problems[:2]:
@@ -326,6 +404,7 @@ def install(tap, run):
             run.count("raised:filter:%s:%s" % (kind_of(obj), type(ev.exc).__name__))
             return
         coords, data, weights = entry(ev)
+        check_params(ev, "filter")
         problems = []
         fits = [k for k in ev.children if k.obj is obj and k.name.endswith(".fit")]
         if not fits:
@@ -426,10 +505,67 @@ def install(tap, run):
                         problems.append(("reduction:length", "reduced %s shapes %s for %d blocks" % (label, _shapes(part_t), n_blocks)))
                 if not 1 <= n_blocks <= np.size(_tup(data)[0]):
                     problems.append(("reduction:count", "%d blocks from %d points" % (n_blocks, np.size(_tup(data)[0]))))
+                elif not problems:
+                    problems.extend(blocks_on_own_region(obj, coords, r_coords, n_blocks))
+        check_params(ev, "filter")
         run.evaluated("reduction_filter")
         run.count("filter_of:" + type(obj).__name__)
         if problems:
             report("reduction_filter", problems, {"estimator": describe(obj), "coordinates": coords, "data": data, "weights": weights, "returned": res})
+
+    def blocks_on_own_region(obj, coords, r_coords, n_blocks):
+        """
+        The blocks of THIS call lie on the region of THIS call's points (their bounding box when the reduction has no region): the
+        number of block values equals the number of occupied cells of that partition (own arithmetic; points within 1e-9 of a cell
+        edge or a rounding tie of the cell count make the case either-way) and the reduced coordinates stay inside that region.
+        """
+        east = np.asarray(coords[0], dtype="float64").ravel()
+        north = np.asarray(coords[1], dtype="float64").ravel()
+        region = obj.region
+        label = "explicit_region" if region is not None else "own_bounding_box"
+        if region is None:
+            region = (east.min(), east.max(), north.min(), north.max())
+        w, e, s, n = (float(v) for v in region)
+        if east.min() < w or east.max() > e or north.min() < s or north.max() > n:
+            run.count("skipped:reduction_blocks:points_outside_explicit_region")
+            return []
+        if obj.shape is not None:
+            n_north, n_east = int(obj.shape[0]), int(obj.shape[1])
+        else:
+            spacing = np.atleast_1d(obj.spacing).astype("float64")
+            sp_n, sp_e = (spacing[0], spacing[0]) if spacing.size == 1 else (spacing[0], spacing[1])
+            q_e, q_n = (e - w) / sp_e, (n - s) / sp_n
+            if min(abs(q - np.floor(q) - 0.5) for q in (q_e, q_n)) < 1e-6:
+                run.count("either_way:reduction_blocks:cell_count_tie")
+                return []
+            n_east, n_north = max(int(np.floor(q_e + 0.5)), 1), max(int(np.floor(q_n + 0.5)), 1)
+            if obj.adjust == "region":
+                e, n = w + n_east * sp_e, s + n_north * sp_n
+        width, height = (e - w) / n_east, (n - s) / n_north
+        if not (width > 0 and height > 0):
+            run.count("skipped:reduction_blocks:degenerate_region")
+            return []
+        fe, fn = (east - w) / width, (north - s) / height
+        near = (np.abs(fe - np.round(fe)) < 1e-9 * max(1.0, n_east)) & (np.round(fe) > 0) & (np.round(fe) < n_east)
+        near |= (np.abs(fn - np.round(fn)) < 1e-9 * max(1.0, n_north)) & (np.round(fn) > 0) & (np.round(fn) < n_north)
+        if near.any():
+            run.count("either_way:reduction_blocks:point_on_cell_edge")
+            return []
+        ie = np.clip(np.floor(fe).astype(int), 0, n_east - 1)
+        jn = np.clip(np.floor(fn).astype(int), 0, n_north - 1)
+        expected = len(set((jn * n_east + ie).tolist()))
+        run.evaluated("reduction_blocks_on_own_region")
+        run.count("reduction_region:" + label)
+        out = []
+        if n_blocks != expected:
+            out.append(("reduction:blocks", "%d block values, but the %dx%d partition of this call's region %s has %d occupied cells (%s)"
+                        % (n_blocks, n_north, n_east, [w, e, s, n], expected, label)))
+        else:
+            margin_e, margin_n = 1e-9 * max(abs(w), abs(e), e - w), 1e-9 * max(abs(s), abs(n), n - s)
+            re, rn = np.asarray(r_coords[0], dtype="float64"), np.asarray(r_coords[1], dtype="float64")
+            if re.min() < w - margin_e or re.max() > e + margin_e or rn.min() < s - margin_n or rn.max() > n + margin_n:
+                out.append(("reduction:coordinates_outside", "reduced coordinates leave the region %s of this call's points" % [w, e, s, n]))
+        return out
 
     def post_filter(ev):
         if isinstance(ev.obj, BlockReduce):
@@ -456,10 +592,20 @@ def install(tap, run):
             run.count("raised:Chain.fit:" + type(ev.exc).__name__)
             return
         steps = [s for _, s in chain.steps]
+        names = [str(nm) for nm, _ in chain.steps]
         given = entry(ev)
+        check_params(ev, "fit")
         filt = [k for k in ev.children if k.name.endswith(".filter")]
-        witness = {"chain": desc, "coordinates": given[0], "data": given[1], "weights": given[2],
+        witness = {"chain": desc, "step_names": names, "coordinates": given[0], "data": given[1], "weights": given[2],
                    "filter_calls": [describe(k.obj) for k in filt]}
+        if len(names) >= 2:
+            run.count("chain_names:%s" % ("all_equal" if len(set(names)) == 1 else "some_repeated" if len(set(names)) < len(names) else "unique"))
+            if len(set(names)) < len(names) and sum(predicts(s) for nm, s in chain.steps if names.count(str(nm)) > 1) >= 2:
+                run.count("chain_names:repeated_among_predicting_steps")
+        for nm, s in chain.steps:
+            if isinstance(s, Chain) and (set(str(x) for x, _ in s.steps) & set(names)):
+                run.count("chain_names:shared_with_nested_chain")
+                break
         # (1) exactly one filter per step, in list order
         run.evaluated("chain_fit_order")
         order_ok = len(filt) == len(steps) and all(k.obj is s for k, s in zip(filt, steps))
@@ -599,12 +745,20 @@ def install(tap, run):
         """(4) history: a chain object fitted again must equal a fresh clone fitted once on the same input."""
         before = STATE.chain_fitted.get(id(chain))
         STATE.chain_fitted[id(chain)] = chain
+        rec = STATE.blueprints.get(id(chain))
+        if rec is not None and rec[0] is chain:
+            rec[2] = _freeze(chain)
         if before is not chain:
             return
         if contains(chain, VectorSpline2D):
             run.count("skipped:refit_documented_history(VectorSpline2D)")
             return
-        fresh = quiet(lambda: clone(chain).fit(*given))
+        # the reference is a clone of the blueprint taken before the FIRST fit (a clone of the fitted object would inherit
+        # whatever a fit wrote into constructor parameters)
+        blueprint = rec[1] if rec is not None and rec[0] is chain else chain
+        fresh = quiet(lambda: clone(blueprint).fit(*given))
+        if any(isinstance(s, BlockReduce) and s.region is None for _, s in chain.steps):
+            run.count("history:refit_with_regionless_reduction")
         at = given[0]
         try:
             old_p, new_p = _tup(quiet(chain.predict, at)), _tup(quiet(fresh.predict, at))
@@ -685,6 +839,7 @@ def install(tap, run):
             return
         comps = list(vec.components)
         coords, data, weights = entry(ev)
+        check_params(ev, "fit")
         desc = describe(vec)
         kids = [k for k in ev.children if k.name.endswith(".fit")]
         problems = []
